@@ -16,10 +16,12 @@ import (
 type MVal interface{ mval() }
 
 type MU64 uint64
+type MByte byte
 type MStr string
 type MSome struct{ In MVal }
 
 func (MU64) mval()   {}
+func (MByte) mval()  {}
 func (MStr) mval()   {}
 func (MSome) mval()  {}
 func (*MCont) mval() {}
@@ -217,6 +219,8 @@ func describeTo(sb *strings.Builder, v MVal, depth int) {
 		sb.WriteString("nil")
 	case MU64:
 		fmt.Fprintf(sb, "u%d", uint64(x))
+	case MByte:
+		fmt.Fprintf(sb, "b%d", byte(x))
 	case MStr:
 		if len(x) > 16 {
 			fmt.Fprintf(sb, "s%d:%s..", len(x), string(x[:12]))
